@@ -136,4 +136,45 @@ def aliasShallow (H : Hier) (c : ClassId) (newName : NameId) (captured : ImplId)
   | some i => if i = captured then some captured else resolve H c newName
   | none => some captured
 
+
+/-! ## the ARGUMENT dimension: which calls a function object accepts (round 3, follow-up)
+
+`Sig` is the signature of a python function with positional-or-keyword parameters (after `self`),
+optionally `*args` / `**kwargs`; a call is (number of positional arguments, keyword names).
+`sigAccepts` is `inspect.Signature.bind` succeeding = the call not raising `TypeError` for its
+arguments.  `aliasAccepts`: the code's wrapper checks nothing itself and passes the arguments on
+unchanged, so it accepts what the function that runs accepts.  `precheckAccepts` is NOT the code: a
+wrapper that first binds the arguments to the signature of the CAPTURED function. -/
+
+structure Sig where
+  params : List (NameId × Bool)     -- name, has a default
+  varPos : Bool
+  varKw : Bool
+deriving Repr, DecidableEq
+
+def sigAccepts (s : Sig) (npos : Nat) (kws : List NameId) : Bool :=
+  let names := s.params.map (·.1)
+  (npos ≤ names.length || s.varPos) && nodupNat kws &&
+    kws.all (fun k => ((names.drop npos).contains k) || (s.varKw && !(names.contains k))) &&
+    ((s.params.drop npos).all fun p => p.2 || kws.contains p.1)
+
+/-- does the call go through when made under the old name (receiver of class `c`) -/
+def aliasAccepts (sigOf : ImplId → Sig) (H : Hier) (c : ClassId) (newName : NameId) (captured : ImplId)
+    (npos : Nat) (kws : List NameId) : Bool :=
+  match aliasCall H c newName captured with
+  | none => false
+  | some i => sigAccepts (sigOf i) npos kws
+
+/-- … and under the new name -/
+def newAccepts (sigOf : ImplId → Sig) (H : Hier) (c : ClassId) (newName : NameId)
+    (npos : Nat) (kws : List NameId) : Bool :=
+  match callNew H c newName with
+  | none => false
+  | some i => sigAccepts (sigOf i) npos kws
+
+/-- NOT the code: arguments bound to the captured function's signature before the dispatch -/
+def precheckAccepts (sigOf : ImplId → Sig) (H : Hier) (c : ClassId) (newName : NameId) (captured : ImplId)
+    (npos : Nat) (kws : List NameId) : Bool :=
+  sigAccepts (sigOf captured) npos kws && aliasAccepts sigOf H c newName captured npos kws
+
 end Disp
